@@ -1,6 +1,7 @@
 import Upf.Proofs.AgentWorld
 import Upf.Gen.Dispatch
 import Upf.Proofs.AgentReply
+import Upf.Proofs.Addressable
 /-!
 # C02 — Every request gets exactly one correctly addressed response
 
@@ -141,5 +142,25 @@ theorem response_types_are_never_answered :
     Gen.Dispatch.defaultReturns = true ∧
     (Gen.Dispatch.clauses.filter (·.takesReply)).all (fun c => c.types.all (fun t => !responseTypes.contains t)) = true := by
   decide
+
+/-! ### the UP F-SEID addresses the session in all later requests (BESS agent model, arbitrary requests, no envelope) -/
+
+/-- an accepted establishment returns a UP F-SEID under which the session is stored … -/
+theorem accepted_establishment_is_addressable (cfg : Agent.Cfg) (w : Agent.World) (a lseid : Nat) (r : Agent.EstReq)
+    (h : (Agent.establish cfg w a lseid r).2.upSeid = some lseid) : Agent.Known (Agent.establish cfg w a lseid r).1 a lseid :=
+  Agent.establish_makes_known cfg w a lseid r h
+
+/-- … and it **stays addressable until it ends**: after ANY further requests — of any association, accepted or refused, any mix of
+IEs, in any number — none of which is the deletion of the session, a report for it answered "context not found" or the ending of its
+association, the session is still known to its association … -/
+theorem session_addressable_until_it_ends (cfg : Agent.Cfg) (a l : Nat) (qs : List Agent.Req) (w : Agent.World)
+    (hq : ∀ q ∈ qs, q.ends a l = false) (h : Agent.Known w a l) : Agent.Known (qs.foldl (Agent.stepReq cfg) w) a l :=
+  Agent.known_until_ended cfg a l qs w hq h
+
+/-- … so a modification naming it is answered for that session (header SEID = the control plane's SEID for it), never as unknown -/
+theorem known_session_modification_is_addressed (cfg : Agent.Cfg) (w : Agent.World) (a : Nat) (r : Agent.ModReq)
+    (h : Agent.Known w a r.seid) :
+    ∃ s0, (w.conn a).sessions.find? (·.lseid = r.seid) = some s0 ∧ (Agent.modify cfg w a r).reply.seid = Agent.cpSeidAfter r s0 :=
+  Agent.known_modify_addressed cfg w a r h
 
 end Props.C02
